@@ -8,7 +8,12 @@ use std::sync::Arc;
 use xplore::*;
 
 pub fn number_alphabet() -> Vec<f64> {
-    vec![0.0, -0.0, 5e-324, -2.2250738585072014e-308, 1.0, exact::succ(1.0), 0.1, -0.3333333333333333, 1e300, f64::MAX, -f64::MAX, f64::INFINITY, f64::NEG_INFINITY]
+    vec![
+        0.0, -0.0, 5e-324, -2.2250738585072014e-308, 1.0, exact::succ(1.0), 0.1, -0.3333333333333333, 1e300, f64::MAX, -f64::MAX,
+        // doubles that are exactly representable as f32 / f16 (binary formats may store them short) with long decimal expansions
+        0.1f32 as f64, 1073741824.0, 7.888609052210118e-31, 65504.0, 5.960464477539063e-8, f32::MAX as f64, 1.401298464324817e-45, 16777216.0, -0.333251953125,
+        f64::INFINITY, f64::NEG_INFINITY,
+    ]
 }
 const CUBE: [f64; 3] = [-0.0, 5e-324, f64::MAX];
 const BG1: [f64; 4] = [1.5, -2.25, 0.1, 1e-7];
@@ -109,7 +114,7 @@ pub fn check(thorough: bool, _seed: u64) -> Check {
             let c = &cs2[unit / FORMATS.len()];
             let fmt = unit % FORMATS.len();
             let binary = fmt == 3;
-            let alpha: &[f64] = if binary { &f[..] } else { &f[..11] }; // text formats: finite contents only
+            let alpha: &[f64] = if binary { &f[..] } else { &f[..f.len() - 2] }; // text formats: finite contents only
             let nums: Vec<f64> = if c.n == 0 {
                 vec![]
             } else if c.n <= 3 {
@@ -141,8 +146,47 @@ pub fn check(thorough: bool, _seed: u64) -> Check {
         }),
         classes: FORMATS.iter().map(|f| (*f, true)).collect(),
         bounds: json!({"types": "every serializable type (list under serde_types); Segment/Piecewise over Poly0, Poly3, Poly8, Log<Poly2>, IntOfLog<Poly1>, IntOfLogPoly4 with 0..4 segments",
-            "numbers": "alphabet {0.0,-0.0,5e-324,-2^-1022,1,succ(1),0.1,-1/3,1e300,MAX,-MAX} (+-inf added for CBOR): full product for <=3 numbers; otherwise every position swept through the alphabet against two backgrounds, plus the cube over {-0.0,5e-324,MAX} on the first 8 (10 thorough) positions",
+            "numbers": "alphabet {0.0,-0.0,5e-324,-2^-1022,1,succ(1),0.1,-1/3,1e300,MAX,-MAX, and the f32/f16-exact doubles 0.1f32,2^30,2^-100,65504,2^-24,f32::MAX,f32 min subnormal,2^24,-0.333251953125} (+-inf added for CBOR): full product for <=3 numbers; otherwise every position swept through the alphabet against two backgrounds, plus the cube over {-0.0,5e-324,MAX} on the first 8 (10 thorough) positions",
             "formats": FORMATS}),
+    };
+    // many segments (size thresholds of readers that pre-allocate / read in blocks)
+    let sizes: Vec<usize> = if thorough { vec![33, 100, 1000, 4095, 4096, 4097, 13107, 13108, 20000, 26214, 26215, 32768, 65535, 65536, 65537, 70000, 131073] } else { vec![33, 100, 1000, 4097, 13107, 13108, 26215, 65536, 65537, 70000] };
+    let nsz = sizes.len();
+    let many = Phase {
+        name: "many-segments",
+        units: nsz * 4,
+        split: 0,
+        body: Box::new(move |unit, cx| {
+            let pieces = sizes[unit / 4];
+            let fmt = cx.choose(FORMATS.len());
+            fn nums_for(pieces: usize, per: usize) -> Vec<f64> {
+                let mut v = Vec::with_capacity(pieces * per);
+                for i in 0..pieces {
+                    v.push(i as f64 * 0.5 - 3.0);
+                    for k in 1..per {
+                        v.push(BG1[(i + k) % 4] * (1.0 + (k as f64)) + (i % 97) as f64);
+                    }
+                }
+                v
+            }
+            cx.nontrivial();
+            cx.evals(1);
+            let (ty, r) = match unit % 4 {
+                0 => ("Piecewise<Poly0>", { let nums = nums_for(pieces, 2); let v = pw_from_nums::<Poly0>(&nums); let r = guard(|| trip(&v, fmt)); finish(&v, r, &nums, |b| pw_nums(b), fmt) }),
+                1 => ("Piecewise<Poly3>", { let nums = nums_for(pieces, 5); let v = pw_from_nums::<Poly3>(&nums); let r = guard(|| trip(&v, fmt)); finish(&v, r, &nums, |b| pw_nums(b), fmt) }),
+                2 => ("Piecewise<Poly8>", { let nums = nums_for(pieces, 10); let v = pw_from_nums::<Poly8>(&nums); let r = guard(|| trip(&v, fmt)); finish(&v, r, &nums, |b| pw_nums(b), fmt) }),
+                _ => ("Piecewise<IntOfLogPoly4>", { let nums = nums_for(pieces, 7); let v = pw_from_nums::<IntOfLogPoly4>(&nums); let r = guard(|| trip(&v, fmt)); finish(&v, r, &nums, |b| pw_nums(b), fmt) }),
+            };
+            if cx.sampling() {
+                cx.sample(json!({"type": ty, "segments": pieces, "format": FORMATS[fmt]}));
+            }
+            r.map_err(|(what, d)| {
+                let d = if d.to_string().len() > 2000 { json!("(decoded value omitted: too long)") } else { d };
+                Fail::new(format!("{ty} with {pieces} segments: {what}"), json!({"segments": pieces, "format": FORMATS[fmt], "observation": d}))
+            })
+        }),
+        classes: vec![],
+        bounds: json!({"types": "Piecewise over Poly0, Poly3, Poly8, IntOfLogPoly4", "segments": format!("{:?}", if thorough { "33,100,1000,4095..4097,13107,13108,20000,26214,26215,32768,65535..65537,70000,131073" } else { "33,100,1000,4097,13107,13108,26215,65536,65537,70000" }), "formats": FORMATS}),
     };
     let mut extra = serde_json::Map::new();
     extra.insert("serde_types".into(), json!(names));
@@ -150,7 +194,7 @@ pub fn check(thorough: bool, _seed: u64) -> Check {
         id: "C18",
         rule: "choice tree: (type, format) unit x number contents; each leaf serializes one real value and deserializes it again; non-trivial = contents with a zero, subnormal, extreme or infinite number".into(),
         assumptions: vec!["serde_json (feature float_roundtrip), serde_cbor and borsh are the environment the property is stated against".into()],
-        phases: vec![ph],
+        phases: vec![ph, many],
         extra,
         controls: vec![("bit comparison distinguishes -0.0 from 0.0", Box::new(|| if all_bits_eq(&[0.0], &[-0.0]) { Err("not live".into()) } else { Ok(()) }))],
     }
